@@ -170,7 +170,8 @@ def random_items(rng, terms):
         pool.extend(t['alts'])
     items = []
     unknown_too = rng.random() < 0.06       # a few cases step outside the quantifier: ids the ontology does not know (ties the model's `none` branches)
-    for _ in range(rng.randrange(0, 8)):
+    n_items = rng.randrange(0, 8) if rng.random() < 0.93 else rng.choice([63, 64, 65, 127, 128, 129, 300])      # mostly short; long inputs too
+    for _ in range(n_items):
         cu = rng.choice(pool) if not items or rng.random() < 0.8 else rng.choice(items)[1]
         if unknown_too and rng.random() < 0.4:
             cu = f'HP:{rng.randrange(9000000, 9000009):07d}'
